@@ -42,7 +42,7 @@ def validate(module: INSTANCENORM) -> List[UnsupportedModuleError]:
 
 
 @register_module_fixer([nn.InstanceNorm1d, nn.InstanceNorm2d, nn.InstanceNorm3d])
-def fix(module: INSTANCENORM) -> INSTANCENORM:
+def fix(module: INSTANCENORM, **kwargs) -> INSTANCENORM:
     if len(validate(module)) == 0:
         return module
     # else
